@@ -559,8 +559,14 @@ class ProgGen:
                     axes=[[self.axis_arg(a, x) for x, _ in m], [self.axis_arg(b, y) for _, y in m]])
 
     def g_norm(self, vals, arrs):
-        return dict(op='norm', via=self.rng.choice(['method', 'function']), **{'in': [self.pick(arrs, vals)]},
-                    ord=self.rng.choice(['0', 'inf', '2']))
+        i = self.pick(arrs, vals)
+        a = vals[i]
+        ords = ['0']
+        # sqrt followed by squaring must stay exact: |x|^2 summed below 2^21 for 32-bit dtypes, 2^50 otherwise
+        bound = 2 ** 21 if str(a.dtype) in ('float32', 'complex64') else 2 ** 50
+        if 2 * self.mag(a) ** 2 * max(1, int(np.prod(a.shape))) < bound:
+            ords += ['inf', '2']
+        return dict(op='norm', via=self.rng.choice(['method', 'function']), **{'in': [i]}, ord=self.rng.choice(ords))
 
     def g_get_leg_index(self, vals, arrs):
         i = self.pick(arrs, vals)
